@@ -15,6 +15,22 @@ thread_local! {
     static REFUSE_ABOVE: Cell<usize> = const { Cell::new(usize::MAX) };
     static REFUSED: Cell<usize> = const { Cell::new(0) };
     static LARGEST_REFUSED: Cell<usize> = const { Cell::new(0) };
+    // 0 = off; 0x100 | b = fill every fresh (non-zeroed) allocation and every grown tail with byte b
+    static POISON: Cell<u16> = const { Cell::new(0) };
+}
+
+#[inline]
+fn poison_byte() -> Option<u8> {
+    match POISON.try_with(|p| p.get()).unwrap_or(0) {
+        0 => None,
+        v => Some(v as u8),
+    }
+}
+
+/// Fill pattern for memory the allocator hands out uninitialised (None = leave it as the system allocator returns
+/// it). A program whose observable behaviour changes with the pattern reads memory it never wrote.
+pub fn set_poison(b: Option<u8>) {
+    POISON.with(|p| p.set(b.map(|x| 0x100 | x as u16).unwrap_or(0)));
 }
 
 #[inline]
@@ -69,6 +85,9 @@ unsafe impl GlobalAlloc for SimAlloc {
         let p = System.alloc(layout);
         if !p.is_null() {
             on_alloc(layout.size());
+            if let Some(b) = poison_byte() {
+                std::ptr::write_bytes(p, b, layout.size());
+            }
         }
         p
     }
@@ -94,6 +113,11 @@ unsafe impl GlobalAlloc for SimAlloc {
         if !p.is_null() {
             on_dealloc(layout.size());
             on_alloc(new_size);
+            if new_size > layout.size() {
+                if let Some(b) = poison_byte() {
+                    std::ptr::write_bytes(p.add(layout.size()), b, new_size - layout.size());
+                }
+            }
         }
         p
     }
